@@ -8,10 +8,14 @@ import (
 
 // C13 — codecs round-trip. H3: //bits.mask and //bits.set are inverse on non-negative integers.
 
-// verif:bound VerifC13BitsMaskOfSet every integer n in [0, 2^8): mask(set(n)) = n
+// verif:bound VerifC13BitsMaskOfSet every integer n in [0, 2^8) (thorough: [0, 2^16)): mask(set(n)) = n
 // verif:cover VerifC13BitsMaskOfSet zero several-bits
 func VerifC13BitsMaskOfSet() {
-	n := verifNondetIntIn(0, 255)
+	hi := 255
+	if verifThorough() {
+		hi = 65535
+	}
+	n := verifNondetIntIn(0, hi)
 	ctx := context.Background()
 	s, err := set(ctx, rel.NewNumber(float64(n)))
 	verifAssert("set-no-error", err == nil)
